@@ -32,7 +32,7 @@ class Heap:
         self.run = run
         self.arr = {}
         self.alloc0 = z3.Int("alloc0")
-        self.n = 0
+        self.ptr = self.alloc0          # next free reference (symbolic allocation pointer)
         self.layout = {}     # record kind -> {field: kind}
 
     def array(self, name, nidx=1, sort=None):
@@ -62,9 +62,15 @@ class Heap:
         self.arr[name] = z3.Store(a, *idx, v)
 
     def new_ref(self):
-        r = self.alloc0 + self.n
-        self.n += 1
+        r = self.ptr
+        self.ptr = self.ptr + 1
         return r
+
+    def havoc_ptr(self):
+        """at a loop cut: an unknown number of allocations has happened"""
+        old = self.ptr
+        self.ptr = self.run.fresh_int("ptr")
+        self.run.assume(self.ptr >= old)
 
     def allocated(self, ref):
         """well-formedness of a reference that exists in the pre-state"""
